@@ -257,6 +257,9 @@ def change_base(chars, base_from, base_to, min_length=0, output_even=None, outpu
                 pos = code_str_from.index(item)
             except ValueError:
                 try:
+                    # Only case-insensitive alphabets (hex, bech32) may be read in lower case
+                    if code_str_from != code_str_from.lower():
+                        raise ValueError
                     pos = code_str_from.index(item.lower())
                 except ValueError:
                     raise EncodingError("Unknown character %s found in input string" % item)
